@@ -143,7 +143,12 @@ func (e *execState) checkWriteSets(bo *blockObs) {
 					if tx.Msg.Kind != KCreateFixed && tx.Msg.Kind != KCreateBatch {
 						res.addV("C19", "frame.counter", tx.Msg.Kind, fmt.Sprintf("tx %d (%s) wrote the global auction counter", o.Idx, tx.Msg.Kind), bo.Idx, o.Idx)
 					}
-				case kind == "params" || kind == "unknown":
+				case kind == "unknown":
+					// a key layout this harness does not know (a new index, say): whether such a write
+					// concerns another auction cannot be told from the key; interference would still
+					// show in the observable state, which is compared after every block
+					res.Stats.Probes["write_to_unknown_module_key"]++
+				case kind == "params":
 					res.addV("C19", "frame.foreign_key", tx.Msg.Kind, fmt.Sprintf("tx %d (%s on auction %d) wrote key %q of the module store", o.Idx, tx.Msg.Kind, own, string(w.Key)), bo.Idx, o.Idx)
 				case has && auc != own:
 					res.addV("C19", "frame.other_auction", tx.Msg.Kind+":"+kind, fmt.Sprintf("tx %d (%s on auction %d) wrote %s of auction %d", o.Idx, tx.Msg.Kind, own, kind, auc), bo.Idx, o.Idx)
